@@ -101,7 +101,8 @@ Inductive result :=
 | RUnit
 | RMiss (k : list N)
 | RGet (k o : list N) (sz tm : N)          (* Get: entry *)
-| RFile (k o : list N) (sz : N)            (* GetFile: path of <o>-d *)
+| RFile (k o : list N) (sz : N) (snap : option (list N))
+    (* GetFile: path of <o>-d; snap is ghost: the content of that path at the moment GetFile returned *)
 | RBytes (k : list N) (b : list N).        (* GetBytes: data *)
 
 (* program counters; a constructor carrying an inode number holds an open descriptor on it *)
@@ -270,7 +271,7 @@ Definition pstep (c : choice) (fs : fsys) (p : pc) : option (fsys * pc) :=
     | None => Some (fs, PDone (RMiss k))
     | Some i => match get_file fs i with
                 | None => None
-                | Some f => if fsize f =? sz then Some (fs, PDone (RFile k o sz)) else Some (fs, PDone (RMiss k))
+                | Some f => if fsize f =? sz then Some (fs, PDone (RFile k o sz (Some (fdata f)))) else Some (fs, PDone (RMiss k))
                 end
     end
   | PGBOpen k o =>
